@@ -399,7 +399,7 @@ func c01LoadIndex(fs *Facts, f *File) {
 		return
 	}
 	fs.Tri("deleteRemoves", TriOf(del), where)
-	fs.Tri("metadataIgnored", TriOf(metaClean), where)
+	fs.Tri("metadataIgnored", ShapeTri(metaClean), where)
 }
 
 // c01BatchPaths: WriteEntries must ask for a flush after every Add (flushLocked inside the range
@@ -500,7 +500,7 @@ func c01Chronicler(fs *Facts) {
 		strings.Contains(b, "ifisDeleted{") && strings.Contains(b, "Operation:v2.OpDelete,Key:key,Data:nil") &&
 		strings.Contains(b, "op:=v2.OpUpdateift.GetFileName()==nil{op=v2.OpInsert}") &&
 		strings.Contains(b, "Operation:op,Key:key,Data:data")
-	fs.Tri("chronOpChoice", TriOf(choice), where)
+	fs.Tri("chronOpChoice", ShapeTri(choice), where)
 	// the `if err := c.writer.WriteEntry(entry); err != nil { … }` block
 	cont, found := false, false
 	ast.Inspect(fd.Body, func(x ast.Node) bool {
@@ -629,8 +629,15 @@ func c01OpenExisting(fs *Facts, f *File) {
 	where := c01Writer + ":" + itoa(f.Line(fd))
 	b := strings.ReplaceAll(f.Str(fd.Body), " ", "")
 	hasRead, hasTrunc := strings.Contains(b, "file.ReadAt("), strings.Contains(b, "file.Truncate(")
-	walk := strings.Contains(b, "file.ReadAt(bh,end)") &&
-		strings.Contains(b, "next:=end+BlockHeaderSize+int64(binary.LittleEndian.Uint32(bh[0:4]))") &&
+	// canonicalise the local buffer: whatever is passed to ReadAt is the one whose first four bytes are read
+	buf := ""
+	for _, c := range f.Calls(fd.Body, "file.ReadAt") {
+		if len(c.Args) == 2 && f.Str(c.Args[1]) == "end" {
+			buf = f.Str(c.Args[0])
+		}
+	}
+	walk := buf != "" &&
+		strings.Contains(b, "next:=end+BlockHeaderSize+int64(binary.LittleEndian.Uint32("+buf+"[0:4]))") &&
 		strings.Contains(b, "ifnext>info.Size(){break}") && strings.Contains(b, "ifend<info.Size(){iferr:=file.Truncate(end)")
 	switch {
 	case walk:
